@@ -284,7 +284,7 @@ def step (_ : Unit) (toks : List String) : Unit × String :=
     | ["readpass", file] =>
       match bytesOfHex file with
       | some f =>
-        "readpass inrange | " ++ resStr (Lines.readpassFile (Array.replicate Gen.CodecTables.maxPassLen 0xaa) f) fun r =>
+        "readpass inrange " ++ resStr (Lines.readpassFile (Array.replicate Gen.CodecTables.maxPassLen 0xaa) f) fun r =>
           match r with
           | none => "fail"
           | some p => s!"ok {hx p}"
